@@ -92,6 +92,7 @@ func runC07(p *load.Program, r *oblig.Report) {
 	c07InBatchOrder(p, r)
 	// a produce attempt that outlives its deadline on a stalled connection would be appended behind later batches
 	transportDeadline(p, r, "C07.R5 an abandoned produce attempt cannot be delivered late")
+	c07CheckThenRegister(p, r, "C07.R2 one sender per partition, retries are synchronous")
 }
 
 func c07Queue(p *load.Program, r *oblig.Report) {
@@ -1856,4 +1857,63 @@ func c01Temporary(p *load.Program, r *oblig.Report) {
 		ok := strings.Contains(j, "ErrUnexpectedEOF") && len(names) == 4
 		r.Check(ok, rule, "isTransientNetworkError recognises ErrUnexpectedEOF, ECONNREFUSED, ECONNRESET, EPIPE", p.Pos(tn.Pos()), "4 errors.Is tests", j)
 	}
+}
+
+// c07CheckThenRegister: "this partition has no writer yet" and "here is its writer" are one atomic step: Writer.mutex
+// is not released between the lookup in w.writers that found nothing and the store of the new partition writer,
+// otherwise two callers each create a writer (and a sender goroutine) for the same partition.
+func c07CheckThenRegister(p *load.Program, r *oblig.Report, rule string) {
+	fn := p.Func("", "(*Writer).batchMessages")
+	if fn == nil {
+		r.Lost(rule, "kafka.(*Writer).batchMessages")
+		return
+	}
+	isWriters := func(v ssa.Value) bool { return strings.HasSuffix(clean(an.Shape(v)), ".writers") }
+	var lookups, updates []ssa.Instruction
+	an.EachInstr(fn, func(ins ssa.Instruction) {
+		switch x := ins.(type) {
+		case *ssa.Lookup:
+			if isWriters(x.X) {
+				lookups = append(lookups, x)
+			}
+		case *ssa.MapUpdate:
+			if isWriters(x.Map) {
+				updates = append(updates, x)
+			}
+		}
+	})
+	if len(lookups) == 0 || len(updates) == 0 {
+		r.Lost(rule, "lookup / registration in w.writers reachable from kafka.(*Writer).batchMessages")
+		return
+	}
+	isUnlock := func(i ssa.Instruction) bool {
+		c, ok := i.(*ssa.Call)
+		if !ok || c.Call.StaticCallee() == nil {
+			return false
+		}
+		n := an.RefFuncName(c.Call.StaticCallee())
+		return (n == "Unlock" || n == "RUnlock") && len(c.Call.Args) > 0 && strings.HasSuffix(clean(an.Shape(c.Call.Args[0])), ".mutex")
+	}
+	where := ""
+	for _, u := range updates {
+		atomicStep := false
+		for _, l := range lookups {
+			if !an.Dominates(l, u) {
+				continue
+			}
+			q := an.PathQuery{Fn: fn, Stop: func(i ssa.Instruction) bool { return i == u }, Target: isUnlock}
+			if hit := q.ReachableFrom(an.PointOf(l)); hit == nil {
+				atomicStep = true
+			} else {
+				where = "the mutex is released at " + p.Pos(hit.Pos()) + " between the lookup at " + p.Pos(l.Pos()) + " and the registration at " + p.Pos(u.Pos())
+			}
+		}
+		if atomicStep {
+			where = ""
+		} else if where == "" {
+			where = "no lookup of w.writers[key] dominates the registration at " + p.Pos(u.Pos())
+		}
+	}
+	r.Check(where == "", rule, "WriteMessages → a partition writer is looked up and, if missing, created and registered without releasing Writer.mutex", p.Pos(fn.Pos()),
+		"writer := w.writers[key]; if writer == nil { writer = newPartitionWriter(w, key); w.writers[key] = writer } in one critical section", where)
 }
